@@ -359,7 +359,7 @@ Proof.
 Qed.
 
 Definition tie_signatures : Prop :=
-  src_dunders = model_dunders /\
+  src_dunders = model_dunders /\ src_signatures = model_signatures /\
   [("apply_operation", defaults_apply_operation); ("filled", defaults_filled); ("map", defaults_map);
    ("map_both", defaults_map_both); ("index_put", defaults_index_put); ("wsum", defaults_wsum); ("sum", defaults_sum);
    ("get_filled_value_and_weight", defaults_get_filled_value_and_weight); ("get_dim", defaults_get_dim);
@@ -367,7 +367,7 @@ Definition tie_signatures : Prop :=
    ("compute_std_from_variance", defaults_compute_std_from_variance)]%string = model_defaults.
 
 Theorem gen_tie_signatures : tie_signatures.
-Proof. split; [exact gen_dunders | exact gen_defaults]. Qed.
+Proof. split; [exact gen_dunders | split; [reflexivity | exact gen_defaults]]. Qed.
 
 (* ------------------------------------------------------------------ unary dunders and the unary-operator factory *)
 
